@@ -9,7 +9,9 @@ use crate::bgp::aspath::HopPath;
 use crate::bgp::communities::StandardCommunity;
 use crate::bgp::message::{Header, MsgType, UpdateMessage, SessionConfig};
 use crate::bgp::nlri::afisafi::{AfiSafiNlri, NlriParse, NlriCompose};
-use crate::bgp::path_attributes::{Attribute, PaMap, PathAttributeType};
+use crate::bgp::path_attributes::{
+    Attribute, AttributeHeader, PaMap, PathAttributeType
+};
 use crate::bgp::types::{AfiSafiType, NextHop};
 use crate::util::parser::ParseError;
 
@@ -61,6 +63,15 @@ where
     ) -> UpdateBuilder<Target, A> {
         let mut res = UpdateBuilder::from_target(Target::empty()).unwrap();
         res.attributes = attributes;
+        // MP_REACH_NLRI and MP_UNREACH_NLRI are composed from the NLRI given
+        // to this builder. A raw copy of them in the attribute map (which
+        // `PaMap::from_update_pdu` skips for the same reason, but
+        // `PaMap::add_attribute` lets in) would end up in the PDU as a second
+        // attribute of that type.
+        res.attributes.attributes_mut()
+            .remove(&MpReachNlriBuilder::<()>::TYPE_CODE);
+        res.attributes.attributes_mut()
+            .remove(&MpUnreachNlriBuilder::<()>::TYPE_CODE);
         res
     }
 
